@@ -904,6 +904,16 @@ func (h *handler) asyncSyncAdChain(ctx context.Context) {
 	syncer, updatePeerstore, err := h.makeSyncer(peerInfo, true)
 	if err != nil {
 		log.Errorw("Cannot make syncer for announce", "err", err, "peer", h.peerID)
+		// The announced advertisement was not synced: allow another announce
+		// for the same CID and report the failure, as for any failed sync.
+		if h.subscriber.receiver != nil {
+			h.subscriber.receiver.UncacheCid(nextCid)
+		}
+		h.subscriber.inEvents <- SyncFinished{
+			Cid:    nextCid,
+			PeerID: h.peerID,
+			Err:    err,
+		}
 		return
 	}
 
